@@ -13,11 +13,20 @@ SPEC = {
              "(own evaluator: absent tag = '', absent field/unknown key/regex on absent tag = false). Ladder: AND-only -> OR over shard-key equalities -> full language -> "
              "+ALTER SHARDKEY -> +regex measurement source -> range sharding -> /*+ full_series */ hint with the complete tag set of a written series (only rows of exactly that series are required). A case is non-trivial when, for route campaigns, >= 2 rows and >= 2 groups exist; for prune campaigns, "
              "some query has >= 1 matching row and either the mapper pruned (strict subset of the shards of the groups in range) or the condition has OR / a non-tag operand with matches in >= 2 shards; "
-             "distinct = hash of the whole case"),
+             "distinct = hash of the whole case. "
+             "route_alter_duration: histories with 1-3 ALTER RETENTION POLICY ... SHARD DURATION statements between the batches (initial 1h/90m/2h/4h/6h/1d/default, changed to 1h/90m/2h/4h/6h/1d/7d, "
+             "both directions; applied as the UpdateRetentionPolicyCommand the sql node builds, through meta.ApplyUpdateRetentionPolicy), timestamps over the hours of a few adjacent days so that rows fall "
+             "into groups created under an old duration and into wider/narrower groups created next to or over them, and queries with a time window of 30 min - 3 h around written timestamps and "
+             "expected group boundaries, half-open ranges, time = t and no time condition (optionally AND tag/field atoms); oracles (a) and (b) unchanged. Non-trivial there: >= 1 duration change, live groups "
+             "of >= 2 widths and a query with lower and upper bound that has >= 1 matching row"),
     "assumptions": [
         "all partitions are Online (write-available-first routing of writes while a partition is offline is outside the quantifier)",
         "the harness' meta client is the real metaclient.Client reading the shared meta.Data; only its RPC-sending methods (CreateShardGroup, CreateMeasurement, UpdateSchema) are replaced by applying the same command locally",
         "negative timestamps are outside the domain (the line protocol parser rejects them)",
+        "after a shard-duration change live groups of a policy overlap on the pinned tree (known finding C16-overlap-after-shard-duration-change of property C16): for histories with such a change the "
+        "'no two live groups overlap' check is not applied (counted as class/excluded), and where >= 2 live groups contain a timestamp every containing group is an admissible target: a re-write of the "
+        "same point may go to another containing group than before (the writer prefers the previous row's group, else the last containing group in catalogue order; counted as "
+        "rewrite-moved-between-overlapping-groups), all other requirements stay (group contains the time, exactly one delivery, a series keeps its shard within a group, strict determinism where one group contains the time)",
         "known-finding classes A, B (higher OR rungs), C (prune_alter), D (prune_regex_source), R (range campaigns), H (hint campaign) are excluded by construction and counted; replays/C11/*.json hold one minimal case each (C11_CHECK_KNOWN=ABCDRH checks them too)",
     ],
     "campaigns": [
@@ -31,6 +40,7 @@ SPEC = {
         {"name": "prune_regex_source", "run": "^TestPruneRegexSource$", "quick": B(3000, 1), "thorough": B(400000, 1, 7200)},
         {"name": "prune_range", "run": "^TestPruneRange$", "quick": B(3000, 2), "thorough": B(400000, 2, 7200)},
         {"name": "prune_hint_full_series", "run": "^TestPruneHintFullSeries$", "quick": B(3000, 1), "thorough": B(400000, 1, 7200)},
+        {"name": "route_alter_duration", "run": "^TestRouteAlterDuration$", "quick": B(5000, 2), "thorough": B(300000, 2, 7200)},
     ],
 }
 
